@@ -128,10 +128,11 @@ def short(v):
 
 def build_file(x, nodes, rng):
     tables, fobjs, lay = E.plan_tables(nodes, ntables_free=set(x["free"]), stale=set(x["stale"]), newer_first=x["newerFirst"],
-                                       pad_rng=rng if rng.random() < 0.5 else None)
+                                       pad_rng=rng if rng.random() < 0.5 else None, flag_rng=rng if rng.random() < 0.6 else None)
     hi, lo = rng.choice([(9, 4), (0x9000, 5), (0xFFFF, 1), (0x8001, 0), (2, 1)])
     seqs = (hi, lo) if x["hdr"] == 1 else (lo, hi)
-    return E.build(tables, fobjs, hdr_seqs=seqs)
+    # key tables and file objects may be listed in a chain of object tables (any distribution, any order)
+    return E.build(tables, fobjs, hdr_seqs=seqs, chain=rng.choice([1, 1, 2, 3]), chain_rng=rng if rng.random() < 0.5 else None)
 
 
 def run(ctx):
